@@ -162,18 +162,22 @@ impl<C: PixelColor> DrawTarget for Rec<C, false> {
 impl<C: PixelColor> DrawTarget for Rec<C, true> {
     type Color = C;
     type Error = Fault;
+    /// the native flavour consumes the pixel iterator by internal iteration (`for_each`, i.e. `fold`), the
+    /// draw_iter-only flavour with a `for` loop (`next`): a target is free to do either
     fn draw_iter<I: IntoIterator<Item = Pixel<C>>>(&mut self, px: I) -> Result<(), Fault> {
         self.enter("draw_iter", None)?;
         if self.log_calls {
-            let v: Vec<((i32, i32), C)> = px.into_iter().map(|Pixel(p, c)| ((p.x, p.y), c)).collect();
+            let mut v: Vec<((i32, i32), C)> = vec![];
+            px.into_iter().for_each(|Pixel(p, c)| v.push(((p.x, p.y), c)));
             for (p, c) in &v {
                 self.map.insert(*p, *c);
             }
             self.log.push(Call::DrawIter(v));
         } else {
-            for Pixel(p, c) in px {
-                self.map.insert((p.x, p.y), c);
-            }
+            let map = &mut self.map;
+            px.into_iter().for_each(|Pixel(p, c)| {
+                map.insert((p.x, p.y), c);
+            });
         }
         Ok(())
     }
